@@ -290,3 +290,139 @@ Proof.
     rewrite (tr_uc_beg m b s ob (o - 1) d fuel Hs H256) by lia. xstep.
     rewrite (pre_of_S s ob o) by lia. cbn [uc_prev]. do 3 f_equal. lia.
 Qed.
+
+(* ------------------------------------------------------------------ uc_slen *)
+Definition uc_slen_loop : stmt :=
+  match fn_body cf_uc_slen with SSeq (SSeq _ w) _ => w | _ => SSkip end.
+
+Lemma nonul_nthb_nz s p : nonul s -> (p < length s)%nat -> (nthb s p =? 0)%N = false.
+Proof.
+  intros H Hp. unfold nonul in H. rewrite Forall_forall in H.
+  assert (byte_ok (nthb s p)) as [Hb _] by (apply H; unfold nthb; apply nth_In; exact Hp).
+  apply N.eqb_neq. lia.
+Qed.
+
+Lemma uc_slen_loop_ok F d m b s : str_at m b s -> nonul s -> (length s < F)%nat ->
+  forall k p n0 fuel, (length s - p <= k)%nat -> (p <= length s)%nat -> (k < fuel)%nat ->
+  0 <= n0 -> n0 + Z.of_nat (length s - p) <= 2147483647 ->
+  exec (callf cprog F (S d)) fuel uc_slen_loop (mkst [VPtr b (Z.of_nat p); VInt n0] m)
+  = ONormal (mkst [VPtr b (Z.of_nat (length s)); VInt (n0 + Z.of_nat (uc_slen_f k (skipn p s)))] m).
+Proof.
+  intros Hs Hnn HF. pose proof (nonul_lt256 s Hnn) as H256.
+  induction k as [|k IH]; intros p n0 fuel Hk Hp Hf Hn0 Hmax; (destruct fuel as [|fuel]; [lia|]);
+    unfold uc_slen_loop; cbn [fn_body cf_uc_slen]; rewrite exec_for; xstep.
+  - assert (p = length s) as -> by lia. xload Hs H256 (length s). rewrite nthb_end by lia.
+    cbn. rewrite Z.add_0_r. reflexivity.
+  - xload Hs H256 p. rewrite (cc_z0 _ (nthb_lt256 s p H256)).
+    destruct (Nat.eq_dec p (length s)) as [->|Hne].
+    + rewrite nthb_end by lia. rewrite skipn_end by lia. cbn. rewrite Z.add_0_r. reflexivity.
+    + rewrite nonul_nthb_nz by (auto; lia). xstep.
+      rewrite (tr_uc_end m b s p d F Hs H256) by lia. xstep.
+      pose proof (uc_end_in (skipn p s)) as He. rewrite skipn_length in He.
+      assert (uc_end (skipn p s) < length s - p)%nat as He'.
+      { rewrite (skipn_cons_nthb s p) in * by lia. cbn [uc_end length] in *.
+        destruct (negb (bit (nthb s p) 128)); [lia|].
+        pose proof (skip_cont_le (skipn (S p) s)). rewrite skipn_length in *. cbn [skip_cont].
+        destruct (is_lead (nthb s p)), (is_cont (nthb s p)); lia. }
+      unfold chk; cbn [ity_signed]. 
+      replace (in_range I32 (n0 + 1)) with true
+        by (symmetry; unfold in_range, ity_min, ity_max; cbn [ity_signed ity_bits]; change (- 2 ^ (32 - 1)) with (-2147483648); change (2 ^ (32 - 1) - 1) with 2147483647; apply andb_true_intro; split; apply Z.leb_le; lia).
+      xstep.
+      replace (Z.of_nat (p + uc_end (skipn p s)) + 1 * 1) with (Z.of_nat (p + S (uc_end (skipn p s)))) by lia.
+      change (SFor _ _ _) with uc_slen_loop.
+      rewrite (IH (p + S (uc_end (skipn p s)))%nat (n0 + 1) fuel) by lia.
+      rewrite (skipn_cons_nthb s p) at 2 by lia. cbn [uc_slen_f].
+      rewrite <- (skipn_cons_nthb s p) by lia. rewrite skipn_skipn.
+      do 5 f_equal. lia.
+Qed.
+
+Theorem tr_uc_slen m b s o d fuel :
+  str_at m b s -> nonul s -> (o <= length s)%nat -> (length s < fuel)%nat ->
+  Z.of_nat (length s) <= 2147483647 ->
+  callf cprog fuel (S (S d)) F_uc_slen [VPtr b (Z.of_nat o)] m
+  = Ok (VInt (Z.of_nat (uc_slen (skipn o s))), m).
+Proof.
+  intros Hs Hnn Ho Hf Hmax. enter F_uc_slen cf_uc_slen. xstep.
+  change (SFor _ _ _) with uc_slen_loop.
+  rewrite (uc_slen_loop_ok fuel d m b s Hs Hnn Hf (length s - o) o 0 fuel) by lia.
+  xstep. unfold uc_slen. rewrite skipn_length. reflexivity.
+Qed.
+
+(* ------------------------------------------------------------------ uc_off, uc_chr *)
+Lemma uc_end_lt t : t <> [] -> (uc_end t < length t)%nat.
+Proof.
+  destruct t as [|x t]; [congruence|]. intros _. cbn [uc_end length].
+  destruct (negb (bit x 128)); [lia|]. pose proof (skip_cont_le t). cbn [skip_cont].
+  destruct (is_lead x), (is_cont x); lia.
+Qed.
+Lemma nonul_skipn s p : nonul s -> nonul (skipn p s).
+Proof. apply Forall_skipn'. Qed.
+Lemma uc_next_nonul t : nonul t -> t <> [] -> uc_next t = S (uc_end t).
+Proof.
+  intros Hn Ht. unfold uc_next. rewrite nonul_nthb_nz; [reflexivity|exact Hn|apply uc_end_lt; exact Ht].
+Qed.
+Lemma skipn_ne (s : bytes) p : (p < length s)%nat -> skipn p s <> [].
+Proof. intros H E. apply (f_equal (@length _)) in E. rewrite skipn_length in E. cbn in E. lia. Qed.
+
+Lemma uc_off_f_step k t pos e : t <> [] ->
+  uc_off_f (S k) t pos e = if (pos <? e)%nat then S (uc_off_f k (skipn (uc_next t) t) (pos + uc_next t) e) else 0%nat.
+Proof. destruct t; [congruence|reflexivity]. Qed.
+
+Definition uc_off_loop : stmt :=
+  match fn_body cf_uc_off with SSeq _ (SSeq (SSeq _ w) _) => w | _ => SSkip end.
+
+Lemma uc_off_loop_ok F d m b s o off : str_at m b s -> nonul s -> (length s < F)%nat -> (o <= length s)%nat ->
+  forall k p i fuel, (length s - p <= k)%nat -> (o <= p <= length s)%nat -> (k < fuel)%nat ->
+  0 <= i -> i + Z.of_nat (length s - p) <= 2147483647 ->
+  exists p', 
+  exec (callf cprog F (S (S d))) fuel uc_off_loop
+       (mkst [VPtr b (Z.of_nat p); VInt (Z.of_nat off); VPtr b (Z.of_nat (o + off)); VInt i] m)
+  = ONormal (mkst [VPtr b p'; VInt (Z.of_nat off); VPtr b (Z.of_nat (o + off));
+                   VInt (i + Z.of_nat (uc_off_f k (skipn p s) (p - o) off))] m).
+Proof.
+  intros Hs Hnn HF Ho. pose proof (nonul_lt256 s Hnn) as H256.
+  induction k as [|k IH]; intros p i fuel Hk Hp Hf Hi Hmax; (destruct fuel as [|fuel]; [lia|]);
+    unfold uc_off_loop; cbn [fn_body cf_uc_off]; rewrite exec_for; xstep; cbn [ptr_cmp]; rewrite Nat.eqb_refl; xstep.
+  - assert (p = length s) as -> by lia. cbn [uc_off_f]. rewrite Z.add_0_r.
+    destruct (Z.ltb_spec (Z.of_nat (length s)) (Z.of_nat (o + off))); xstep.
+    + xload Hs H256 (length s). rewrite nthb_end by lia. cbn. eexists; reflexivity.
+    + eexists; reflexivity.
+  - destruct (Nat.eq_dec p (length s)) as [->|Hne].
+    + rewrite skipn_end by lia. cbn [uc_off_f]. rewrite Z.add_0_r.
+      destruct (Z.ltb_spec (Z.of_nat (length s)) (Z.of_nat (o + off))); xstep.
+      * xload Hs H256 (length s). rewrite nthb_end by lia. cbn. eexists; reflexivity.
+      * eexists; reflexivity.
+    + rewrite uc_off_f_step by (apply skipn_ne; lia).
+      destruct (Z.ltb_spec (Z.of_nat p) (Z.of_nat (o + off))) as [Hlt|Hge]; xstep.
+      * destruct (Nat.ltb_spec (p - o) off) as [_|Hx]; [|lia].
+        xload Hs H256 p. rewrite (cc_z0i _ (nthb_lt256 s p H256)), nonul_nthb_nz by (auto; lia). xstep.
+        rewrite (tr_uc_next m b s p d F Hs H256) by lia. xstep.
+        pose proof (uc_next_nonul (skipn p s) (nonul_skipn s p Hnn) (skipn_ne s p ltac:(lia))) as Hnx.
+        pose proof (uc_end_lt (skipn p s) (skipn_ne s p ltac:(lia))) as Hel. rewrite skipn_length in Hel.
+        unfold chk; cbn [ity_signed].
+        replace (in_range I32 (i + 1)) with true
+          by (symmetry; unfold in_range, ity_min, ity_max; cbn [ity_signed ity_bits]; change (- 2 ^ (32 - 1)) with (-2147483648); change (2 ^ (32 - 1) - 1) with 2147483647; apply andb_true_intro; split; apply Z.leb_le; lia).
+        xstep. change (SFor _ _ _) with uc_off_loop.
+        destruct (IH (p + uc_next (skipn p s))%nat (i + 1) fuel) as [p' Hp']; try lia.
+        rewrite Hp'. exists p'. rewrite skipn_skipn.
+        replace (p + uc_next (skipn p s) - o)%nat with (p - o + uc_next (skipn p s))%nat by lia.
+        match goal with
+        | |- ONormal (mkst [_; _; _; VInt ?x] _) = ONormal (mkst [_; _; _; VInt ?y] _) =>
+            replace y with x; [reflexivity|]
+        end.
+        rewrite Nat2Z.inj_succ. lia.
+      * destruct (Nat.ltb_spec (p - o) off) as [Hx|_]; [lia|]. rewrite Z.add_0_r. eexists; reflexivity.
+Qed.
+
+Theorem tr_uc_off m b s o off d fuel :
+  str_at m b s -> nonul s -> (o <= length s)%nat -> (length s < fuel)%nat ->
+  Z.of_nat (length s) <= 2147483647 -> Z.of_nat off <= 2147483647 ->
+  callf cprog fuel (S (S (S d))) F_uc_off [VPtr b (Z.of_nat o); VInt (Z.of_nat off)] m
+  = Ok (VInt (Z.of_nat (uc_off (skipn o s) off)), m).
+Proof.
+  intros Hs Hnn Ho Hf Hmax Hoff. enter F_uc_off cf_uc_off. xstep.
+  replace (Z.of_nat o + 1 * Z.of_nat off) with (Z.of_nat (o + off)) by lia.
+  change (SFor _ _ _) with uc_off_loop.
+  destruct (uc_off_loop_ok fuel d m b s o off Hs Hnn Hf Ho (length s - o) o 0 fuel) as [p' Hp']; try lia.
+  rewrite Hp'. xstep. unfold uc_off. rewrite skipn_length, Nat.sub_diag. reflexivity.
+Qed.
